@@ -74,6 +74,8 @@ class MeiParser(object):
         self.parts = (
             None  # parts get initialized in create_parts() and filled in fill_parts()
         )
+        # the unit of the positions that all parts share, set in create_parts()
+        self.common_ppq = None
         # find the music tag inside the document
         music_el = self.document.findall(self._ns_name("music", all=True))
         if len(music_el) != 1:
@@ -93,6 +95,13 @@ class MeiParser(object):
         # handle main scoreDef info: create the part list
         main_partgroup_el = self.music_el.find(self._ns_name("staffGrp", all=True))
         self.parts = self._handle_main_staff_group(main_partgroup_el)
+        # the staffDefs may declare different ppq: the positions that all parts share
+        # (measure starts, repetitions, barlines, endings) are kept in a common unit
+        ppqs = [p._quarter_durations[0] for p in score.iter_parts(self.parts)]
+        if all(ppq == ppqs[0] for ppq in ppqs):
+            self.common_ppq = ppqs[0]
+        else:
+            self.common_ppq = int(np.lcm.reduce(np.array(ppqs).astype(int)))
 
     def fill_parts(self):
         # fill parts with the content of the score
@@ -915,6 +924,14 @@ class MeiParser(object):
 
         return position + duration
 
+    def _part_position(self, position, part):
+        """Position in the unit shared by all parts -> position in divisions of part."""
+        return int(position * part._quarter_durations[0] // self.common_ppq)
+
+    def _shared_position(self, position, part):
+        """Position in divisions of part -> position in the unit shared by all parts."""
+        return int(position * self.common_ppq // part._quarter_durations[0])
+
     def _handle_barline_symbols(self, measure_el, position: int, left_or_right: str):
         barline = measure_el.get(left_or_right)
         if barline is not None:
@@ -1054,7 +1071,11 @@ class MeiParser(object):
         Returns an array, one position for each part."""
         delta_position_beat = float(dir_el.get("tstamp"))
         return [
-            p.inv_beat_map(p.beat_map(bar_position) + delta_position_beat - 1)
+            p.inv_beat_map(
+                p.beat_map(self._part_position(bar_position, p))
+                + delta_position_beat
+                - 1
+            )
             for p in score.iter_parts(self.parts)
         ]
 
@@ -1111,15 +1132,14 @@ class MeiParser(object):
                     raise Exception(f"Not all parts are specified in measure {i_el}")
                 end_positions = []
                 for i_s, (part, staff_el) in enumerate(zip(parts, staves_el)):
-                    end_positions.append(
-                        self._handle_staff_in_measure(
-                            staff_el,
-                            int(staff_el.attrib.get("n", i_s + 1)),
-                            position,
-                            part,
-                            measure_number,
-                        )
+                    end_position = self._handle_staff_in_measure(
+                        staff_el,
+                        int(staff_el.attrib.get("n", i_s + 1)),
+                        self._part_position(position, part),
+                        part,
+                        measure_number,
                     )
+                    end_positions.append(self._shared_position(end_position, part))
                 # handle directives (dir elements)
                 self._handle_directives(element, position)
                 # sanity check that all layers have equal duration
@@ -1149,12 +1169,16 @@ class MeiParser(object):
                     element.get("meter.count") is not None
                 ):
                     for part in parts:
-                        self._handle_metersig(element, position, part)
+                        self._handle_metersig(
+                            element, self._part_position(position, part), part
+                        )
                 # key signature modifications
                 keysig_el = element.find(self._ns_name("keySig"))
                 if (keysig_el is not None) or (element.get("key.sig") is not None):
                     for part in parts:
-                        self._handle_keysig(element, position, part)
+                        self._handle_keysig(
+                            element, self._part_position(position, part), part
+                        )
             # handle nested section
             elif element.tag == self._ns_name("section"):
                 position, measure_number = self._handle_section(
@@ -1184,7 +1208,11 @@ class MeiParser(object):
 
     def _add_ending(self, start_ending, end_ending, ending_string, parts):
         for part in score.iter_parts(parts):
-            part.add(score.Ending(ending_string), start_ending, end_ending)
+            part.add(
+                score.Ending(ending_string),
+                self._part_position(start_ending, part),
+                self._part_position(end_ending, part),
+            )
 
     def _tie_notes(self, section_el, part_list):
         """Ties all notes in a part.
@@ -1268,9 +1296,15 @@ class MeiParser(object):
                 rep_start["type"] == "start" and rep_stop["type"] == "stop"
             ), "Something wrong with repetitions"
             for part in score.iter_parts(self.parts):
-                part.add(score.Repeat(), rep_start["pos"], rep_stop["pos"])
+                part.add(
+                    score.Repeat(),
+                    self._part_position(rep_start["pos"], part),
+                    self._part_position(rep_stop["pos"], part),
+                )
 
     def _insert_barlines(self):
         for bl in self.barlines:
             for part in score.iter_parts(self.parts):
-                part.add(score.Barline(bl["type"]), bl["pos"])
+                part.add(
+                    score.Barline(bl["type"]), self._part_position(bl["pos"], part)
+                )
